@@ -1,14 +1,16 @@
 from props import TB_COMMON
 
-_H = "From TeraV Require Import Model.Value Model.Registry Corr.CorrC11."
+_H = "From TeraV Require Import Model.Value Model.Registry Corr.CorrC11 Corr.CorrC10."
 
 CFG = {
     "bin": "c11",
-    "corr": ["CorrC11"],
+    "corr": ["CorrC11", "CorrC10"],
     "harness_timeout": 2400,
     "families": {
         "graph": {"header": _H, "model_fn": "model_graph", "rule": "F"},
         "render": {"header": _H, "model_fn": "model_render", "rule": "O"},
+        "history": {"header": _H, "model_fn": "model_history", "rule": "F"},
+        "hrender": {"header": _H, "model_fn": "model_hrender", "rule": "O"},
     },
     "rule_text": "graph case = (fallback prefixes, set of (name, source)) with the implementation's accept/reject + ErrorKind; "
                  "render case = the same set with the outcome (texts / error value / abort) of rendering every template in a child "
@@ -16,7 +18,7 @@ CFG = {
                  "Exhaustive sub-space: every digraph (self-loops included) on <= 3 templates with all edges of one kind "
                  "(extends / include in body / in block / in component body) and every extends-function x include-digraph on <= 2 "
                  "templates; the rest sampled (4-template digraphs, 3-template mixed graphs, random graphs up to 12 nodes, "
-                 "fallback-prefix configurations, block nestings across 2-3 inheritance levels, long rings / chains / rings with a tail of 33, 40, 64 and 100 templates through include edges in body / block / component, extends edges, and include-extends alternation; accepted long chains are rendered too). When several errors apply the "
+                 "fallback-prefix configurations, block nestings across 2-3 inheritance levels, long rings / chains / rings with a tail of 33, 40, 64 and 100 templates through include edges in body / block / component, extends edges, and include-extends alternation; accepted long chains are rendered too). Short names that live under several fallback prefixes and/or exactly (every combination of copies a, p/a, q/a x what each copy does x how it is referred to x both prefix orders, plus random 2-3 prefix configurations) are referred to by extends and every include placement and passed to render()/render_block() directly: what is RENDERED must be the copy the documented rule selects (exact name, then the prefixes in order). Multi-call histories (history / hrender families): the same graphs registered in stages on one long-lived instance -- later batches that contain no include tag, replace an include target, or add an exact name over prefixed ones -- with accept/reject after every call compared with the model run on the whole current set and every template rendered in a child process after every accepted call. When several errors apply the "
                  "comparison is membership in the set of applicable kinds.",
     "trusted_base": TB_COMMON + [
         "axioms: none (every C11 theorem is 'Closed under the global context')",
